@@ -216,7 +216,7 @@ func (s *Scanner) scanComment() string {
 		goto exit
 	}
 	// # - style comment, as default
-	s.next()
+	// (the initial '#' is already consumed; s.ch is the first character after it)
 	for s.ch != '\n' && s.ch >= 0 {
 		if s.ch == '\r' {
 			numCR++
@@ -244,7 +244,7 @@ exit:
 
 	// interpret line directives
 	// (//line directives must start at the beginning of the current line)
-	if next >= 0 /* implies valid comment */ && (lit[1] == '*' || offs == s.lineOffset) && bytes.HasPrefix(lit[2:], prefix) {
+	if next >= 0 /* implies valid comment */ && len(lit) >= 2 && (lit[1] == '*' || offs == s.lineOffset) && bytes.HasPrefix(lit[2:], prefix) {
 		s.updateLineInfo(next, offs, lit)
 	}
 
